@@ -56,3 +56,18 @@ claim(
     "variables.",
     "Not decided: float reconstruction numerics. " + GENERIC_NOTE,
 )
+claim(
+    "C19",
+    "explicit-state model checking of a guarded-command model extracted from _enter_z3/_exit_z3 (AST), plus "
+    "CFG pairing and who-may-write rules",
+    "Decides the property for the extracted model: all interleavings at statement granularity with lock semantics "
+    "of up to 3 threads, each performing any well-nested sequence of up to 3 enter/exit calls, GC initially on or "
+    "off: GC is disabled whenever a call is in progress, the counter equals the number of calls in progress and is "
+    "never negative, the collector's state is restored when the last call returns, the underflow branch is "
+    "unreachable. Pairing of enter/exit in the condom wrapper on all normal and exceptional paths and exclusive "
+    "ownership of the guard state are decided on the CFG / by who-may-write.",
+    "The model is extracted from the source on every run (fragment: global, with <module lock>, if, assignment of "
+    "constants / gc.isenabled(), += -=, gc.enable/disable, logging, return); a construct outside it is an "
+    "ANALYSIS-ERROR. traces_validated_against_impl is 0: nothing is executed. Line granularity as the property "
+    "states (an augmented assignment is one step). " + GENERIC_NOTE,
+)
